@@ -222,6 +222,37 @@ def verdict(runs):
   return 'undecided'
 
 
+def _work_isolated(job):
+  """Run one job in a fresh interpreter (a solver crash cannot take the
+  check down); a crash is reported as an undecided run."""
+  import json
+  import sys
+  name, smt2, timeout_ms, use_cvc5 = job
+  with tempfile.NamedTemporaryFile('w', suffix='.smt2', delete=False) as f:
+    f.write(smt2)
+    path = f.name
+  try:
+    code = ('import sys, json; sys.path.insert(0, %r); '
+            'from mmverif.engine import backend; '
+            'n, runs = backend._work((%r, open(%r).read(), %d, %r)); '
+            'print("RESULT" + json.dumps(runs))' % (
+                os.path.dirname(os.path.dirname(os.path.dirname(
+                    os.path.abspath(__file__)))), name, path, timeout_ms,
+                use_cvc5))
+    p = subprocess.run([sys.executable, '-c', code], capture_output=True,
+                       text=True, timeout=timeout_ms / 1000.0 * 4 + 60)
+    for line in p.stdout.splitlines():
+      if line.startswith('RESULT'):
+        return name, json.loads(line[6:])
+    return name, [{'backend': 'z3', 'result': 'crash', 'time': 0.0,
+                   'reason': (p.stderr or p.stdout)[-300:]}]
+  except subprocess.TimeoutExpired:
+    return name, [{'backend': 'z3', 'result': 'unknown', 'time': 0.0,
+                   'reason': 'worker timeout'}]
+  finally:
+    os.unlink(path)
+
+
 def discharge(jobs, timeout_ms=10000, use_cvc5='fallback', workers=None):
   """jobs: list of (name, smt2 text). Returns {name: {'verdict', 'runs'}}."""
   workers = workers or min(16, max(1, (os.cpu_count() or 4)))
@@ -231,10 +262,24 @@ def discharge(jobs, timeout_ms=10000, use_cvc5='fallback', workers=None):
     return out
   if len(payload) <= 2 or workers == 1:
     for j in payload:
-      n, runs = _work(j)
+      n, runs = _work_isolated(j) if len(payload) <= 2 else _work(j)
       out[n] = {'verdict': verdict(runs), 'runs': runs}
     return out
-  with cf.ProcessPoolExecutor(max_workers=workers) as ex:
-    for n, runs in ex.map(_work, payload, chunksize=4):
-      out[n] = {'verdict': verdict(runs), 'runs': runs}
+  try:
+    with cf.ProcessPoolExecutor(max_workers=workers) as ex:
+      futs = {ex.submit(_work, j): j for j in payload}
+      for fu in cf.as_completed(futs):
+        try:
+          n, runs = fu.result()
+          out[n] = {'verdict': verdict(runs), 'runs': runs}
+        except Exception:  # pylint: disable=broad-except
+          pass            # broken pool: handled below
+  except Exception:  # pylint: disable=broad-except
+    pass
+  rest = [j for j in payload if j[0] not in out]
+  if rest:
+    # a solver crashed and broke the pool: finish the rest in isolation
+    with cf.ThreadPoolExecutor(max_workers=workers) as ex:
+      for n, runs in ex.map(_work_isolated, rest):
+        out[n] = {'verdict': verdict(runs), 'runs': runs}
   return out
